@@ -417,6 +417,14 @@ func main() {
 		data, _ := protocol.EncodeMessage(m)
 		var obj map[string]interface{}
 		json.Unmarshal(data[2:], &obj)
+		// a null element at every position of a list of otherwise well-formed elements
+		if l, ok := obj["qualities"].([]interface{}); ok && len(l) > 0 {
+			for pos := 0; pos <= len(l); pos++ {
+				withNull := append(append(append([]interface{}{}, l[:pos]...), nil), l[pos:]...)
+				b2, _ := json.Marshal(map[string]interface{}{"task_id": obj["task_id"], "qualities": withNull})
+				g.decLine(typ, b2, "null-element")
+			}
+		}
 		g.mutate(obj)
 		body, _ := json.Marshal(obj)
 		g.decLine(typ, body, "mutated")
